@@ -1,7 +1,7 @@
 (* One entry point for the extracted model: [run cmd args] returns the result fields.
    The OCaml driver only splits lines, (un)escapes and converts strings. *)
 From Coq Require Import List Bool NArith String Ascii.
-From PC Require Import Base.Cmp Base.Result Model.Pep440 Spec.Pep440Spec Model.VConstraint.
+From PC Require Import Base.Cmp Base.Result Model.Pep440 Spec.Pep440Spec Spec.Specifier Model.VConstraint.
 Import ListNotations.
 Open Scope string_scope.
 Open Scope N_scope.
@@ -196,12 +196,32 @@ Definition run_vc (cmd : string) (args : list string) : option (list string) :=
     | _ => None end
   else None.
 
+(* reference specifier semantics (Spec/Specifier.v), validated against packaging by the harness *)
+Definition run_spec (cmd : string) (args : list string) : option (list string) :=
+  if seq cmd "spcontains" then
+    match args with
+    | op :: l :: cands =>
+      Some match parse l with
+           | Some lv =>
+             map (fun c => match parse c with
+                           | Some cv =>
+                             if seq op ">=" then show_bool (sp_ge lv cv) else
+                             if seq op "<=" then show_bool (sp_le lv cv) else
+                             if seq op "==" then show_bool (sp_eq lv cv) else
+                             if seq op "!=" then show_bool (sp_ne lv cv) else
+                             if seq op ">" then show_bool (sp_gt lv cv) else
+                             if seq op "<" then show_bool (sp_lt lv cv) else "badop"
+                           | None => "badcand" end) cands
+           | None => ["badliteral"] end
+    | _ => None end
+  else None.
+
 Definition run (cmd : string) (args : list string) : list string :=
   match run_pep440 cmd args with
   | Some r => r
   | None =>
     match run_vc cmd args with
     | Some r => r
-    | None => ["unknown-command"]
+    | None => match run_spec cmd args with Some r => r | None => ["unknown-command"] end
     end
   end.
